@@ -172,8 +172,8 @@ def impl_block_parse(coin, inc, chk, data):
         b = NETS[coin].block.parse(f, include_transactions=inc, check_merkle_hash=chk)
     except Exception as e:
         return "!" + exn_tag(e)
-    return "(%s %s %s %s)" % (canon(_hdr_tuple(b)), canon([tx.hash() for tx in b.txs]),
-                              canon(len(data) - f.tell()), call(b.as_bin))
+    return "(%s %s %s %s %s)" % (canon(_hdr_tuple(b)), canon([tx.hash() for tx in b.txs]),
+                                 canon(len(data) - f.tell()), call(b.as_bin), call(lambda: bytes.fromhex(b.id())))
 
 
 def impl_post_unpack(total, hashes, flags, root):
@@ -287,9 +287,10 @@ def gen_block_streams(rng, tier):
         yield (coin, True, True, data + rng.randbytes(rng.randint(1, 9)))        # trailing bytes stay unread
         if n <= 8 or n % 7 == 0:
             yield (coin, False, True, data)
-            bad = bytearray(data)
-            bad[36 + rng.randrange(32)] ^= 1 << rng.randrange(8)                 # header root altered
-            yield (coin, True, True, bytes(bad))
+            for pos in (0, 31, rng.randrange(32)):
+                bad = bytearray(data)
+                bad[36 + pos] ^= 1 << rng.randrange(8)                           # header root altered
+                yield (coin, True, True, bytes(bad))
             yield (coin, True, False, bytes(bad))
             bad = bytearray(data)
             bad[-1 - rng.randrange(4)] ^= 0x01                                   # lock_time of the last tx altered
@@ -594,9 +595,10 @@ def chk_block(coin, hdr, txhex):
         return {"kind": "header-of-block"}
     # bad merkle root: header root altered / one transaction altered / two transactions swapped / one dropped
     bads = []
-    x = bytearray(raw)
-    x[36 + (len(raw) % 32)] ^= 0x40
-    bads.append(("root", bytes(x)))
+    for pos in (0, 31, len(raw) % 32):
+        x = bytearray(raw)
+        x[36 + pos] ^= 0x40
+        bads.append(("root", bytes(x)))
     x = bytearray(raw)
     x[-1] ^= 0x01
     bads.append(("last-tx-locktime", bytes(x)))
